@@ -17,6 +17,7 @@ from vf.gen import graphs
 from vf.model.taxo import G, ic_weights
 from vf.model import search as ms
 
+ID = 'C15'
 RULE = ('one evaluation = one (graph, word inventory, corpus, distribute_weight, smoothing) tuple; distinct = its hash; non-trivial = at '
         'least two hypernym paths converge on some synset that receives weight, or the graph has a cycle, or a corpus word is ambiguous')
 ASSUMPTIONS = ['hypernym links connect synsets of one part of speech (a and s count as one); cross-part-of-speech links are outside the quantifier']
@@ -25,7 +26,7 @@ N = {'quick': 150, 'thorough': 5000}
 
 
 def plan(tier, seed):
-    return [{'seed': seed * 1000003 + i} for i in range(N[tier])]
+    return [{'seed': seed * 1000003 + i} for i in range(N[tier])] + [{'kind': 'pytest-under-contracts', 'seed': 0}]
 
 
 def build(r):
@@ -45,6 +46,9 @@ def build(r):
 
 
 def run_case(case, rec):
+    if case.get('kind') == 'pytest-under-contracts':
+        from vf import contracts_case
+        return contracts_case.run(rec, ID)
     import wn
     import wn.ic
     r = random.Random(case['seed'])
